@@ -562,7 +562,23 @@ convertHelper(
 
     if (fGotDecimalPoint == false && theLength < theLongHackThreshold)
     {
-        return double(WideStringToLong(theString));
+        const long  theLong = WideStringToLong(theString);
+
+        if (theLong == 0)
+        {
+            // A long has no negative zero, which is what a
+            // string like "-0" denotes...
+            const XalanDOMChar*     theCurrent = theString;
+
+            consumeWhitespace(theCurrent);
+
+            if (*theCurrent == XalanUnicode::charHyphenMinus)
+            {
+                return -0.0;
+            }
+        }
+
+        return double(theLong);
     }
     else
     {
